@@ -238,3 +238,24 @@ def run(ctx, rep) -> None:
                     'env': [(5, 1, 'edit', 2), (5, 1, 'hold'), (t_tog, 1, 'toggle'), (t_rel, 1, 'relist'), (30, 1, 'release')],
                     'end': 110, 'tail_from': 90, 'profile': 'stealth', 'sync': '', 'drs': False})
     _family.run_traces(rep, scs, 'stealth', nontrivial=lambda f: 'unmatched' in f)
+    # spawned handlers (timers) under a label filter that the object leaves and re-enters -- also in the middle of a run: the function is
+    # invoked only while the object matches, by one instance at a time (Timers.tla: Unmatch / Rematch / Respawn), judged by Trace_Timers
+    from concurrent.futures import ProcessPoolExecutor
+    from vf import timers as T
+    tscs = [sc_ for sc_ in T.gen_scenarios(ctx.seed, 360 if ctx.quick else 6000) if sc_.get('toggles')]
+    # crafted: a run is under way when the object stops matching, and the object matches again before that run has ended
+    for k_, (dur, off, on) in enumerate(((6, 3, 5), (8, 2, 3), (5, 4, 8), (7, 2, 6))):
+        tscs.append({'id': f'timer-crafted-rematch-{k_}', 'conf': {'interval': 2, 'sharp': False, 'idle': 0, 'initdelay': 0, 'backoff': 1},
+                     'runs': [(dur, 'ok', 0)] + [(0, 'ok', 0)] * 10, 'changes': [], 'relist_changes': [], 'delete_at': None, 'end': 40, 'sync': False,
+                     'toggles': [(1 + off, False), (1 + on, True), (25, False)]})
+    with ProcessPoolExecutor(16) as ex:
+        ttraces = list(ex.map(T.run_scenario, tscs, chunksize=2))
+    tv = T.judge(ttraces, rep)
+    rep.evaluations += len(ttraces); rep.traces += len(ttraces)
+    for t in ttraces:
+        if any(e['ev'] == 'rematch' for e in t['events']):
+            rep.nontrivial([{k: v for k, v in e.items() if k != 't'} for e in t['events']])
+        if t['stall']:
+            rep.violation(f'{t["id"]}: the event loop stalled', payload=t)
+        elif tv[t['id']]['verdict'] != 'accepted':
+            rep.violation(f'{t["id"]}: a filtered timer is not invoked exactly while its criteria hold: {tv[t["id"]]["verdict"]}', payload=t)
